@@ -359,6 +359,16 @@ impl<'a, T: RealNumber, M: Matrix<T>, K: Kernel<T, M::RowVector>> Optimizer<'a, 
         }
     }
 
+    /// The stopping tolerance, but never below what the floating point type can resolve: the gap
+    /// `gmax - gmin` is a difference of gradient values and cannot get smaller than a few units in
+    /// the last place of those values (6e-5 per unit for targets near 1000 in single precision).
+    /// Insisting on a smaller tolerance makes the SMO loop cycle through the same states forever.
+    fn resolvable_tol(&self) -> T {
+        let magnitude = self.gmax.abs().max(self.gmin.abs());
+        self.tol
+            .max(T::epsilon() * T::from_f64(8.0).unwrap() * magnitude)
+    }
+
     /// Solvs the quadratic programming (QP) problem that arises during the training of support-vector machines (SVM) algorithm.
     /// Returns:
     /// * support vectors
@@ -368,7 +378,7 @@ impl<'a, T: RealNumber, M: Matrix<T>, K: Kernel<T, M::RowVector>> Optimizer<'a, 
 
         self.find_min_max_gradient();
 
-        while self.gmax - self.gmin > self.tol {
+        while self.gmax - self.gmin > self.resolvable_tol() {
             #[cfg(smartcore_verif)]
             crate::verif::tick("svr-smo", || {
                 crate::verif::digest_words(self.sv.iter().flat_map(|v| {
